@@ -54,6 +54,12 @@ pub async fn stream_client(cx: Ctx, log: Log, who: String, sub: String, keep_ope
 }
 
 fn program(name: &'static str, parked: Vec<Cons>, racing: Vec<Cons>, with_outstanding: bool) -> ScenFn {
+    program_x(name, parked, racing, with_outstanding, false, false)
+}
+
+/// `topic_first`: the topic is deleted (sequentially) before the subscription; `abandon`: the DeleteSubscription caller
+/// goes away after k polls (data choice) - if the subscription ends up deleted, the consumers must still be released.
+fn program_x(name: &'static str, parked: Vec<Cons>, racing: Vec<Cons>, with_outstanding: bool, topic_first: bool, abandon: bool) -> ScenFn {
     scen!([parked, racing] |cx| {
         let log = Log::default();
         let holder: Holder = Default::default();
@@ -120,15 +126,36 @@ fn program(name: &'static str, parked: Vec<Cons>, racing: Vec<Cons>, with_outsta
         for (i, c) in racing.iter().enumerate() {
             handles.push(start(*c, i, false));
         }
+        if topic_first {
+            must!(cx, "client:delete-topic", { let a = cx.api.clone(); async move { a.delete_topic(T0).await } });
+        }
         let (cx2, log2) = (cx.clone(), log.clone());
         let del = cx.spawn("client:b-delete", async move {
             let r = cx2.api.delete_sub(S0).await;
             log2.push(&cx2, "delete", format!("ret:{}", res(&r)));
         });
+        let mut abandoned = false;
+        if abandon {
+            let k = cx.choose("abandon-delete-after-polls", 5);
+            if k < 4 {
+                tryv!(cx.quiesce_until_polls("client:b-delete", k as u32).await);
+                if !del.is_finished() {
+                    cx.abort_now(&del).await;
+                    abandoned = true;
+                }
+            }
+        }
         tryv!(cx.quiesce().await);
         tryv!(cx.advance_ms(1000).await);
         let mut problems: Vec<(String, String)> = vec![];
-        if !del.is_finished() {
+        if abandoned {
+            // the request either took effect or it did not; only in the first case is anybody to be released
+            let gone = tryv!(cx.settle("probe:get-sub", { let a = cx.api.clone(); async move { a.get_sub(S0).await } }).await).is_err();
+            if !gone {
+                holder.lock().unwrap().clear();
+                return ScenarioOut::ok(format!("abandoned-delete had no effect: {}", log.key_per_client()));
+            }
+        } else if !del.is_finished() {
             problems.push(("delete/hang".into(), "DeleteSubscription has not returned one second after all activity ceased".into()));
         } else if log.last_of("delete").map(|e| e.what) != Some("ret:OK".into()) {
             problems.push(("delete/not-ok".into(), format!("the only DeleteSubscription returned {:?}", log.last_of("delete").map(|e| e.what))));
@@ -204,6 +231,22 @@ pub fn units(thorough: bool) -> Vec<Unit> {
             Bounds::new(d),
             cfg.clone(),
             program(name, parked.clone(), racing.clone(), out),
+        ));
+    }
+    for (name, parked) in [("stream-open", vec![StreamOpen]), ("blocked-pull", vec![BlockedPull]), ("stream+pull", vec![StreamClosed, BlockedPull])] {
+        v.push(explore_unit(
+            format!("sched/topic-deleted-first/{}", name),
+            format!("the topic is deleted first, then DeleteSubscription vs waiting {:?}", parked),
+            Bounds::new(d2),
+            cfg.clone(),
+            program_x(name, parked.clone(), vec![], false, true, false),
+        ));
+        v.push(explore_unit(
+            format!("sched/abandoned-delete/{}", name),
+            format!("the caller of DeleteSubscription disappears after k polls (every k); if the subscription is gone afterwards, waiting {:?} must have been released", parked),
+            Bounds::new(d2 - 1),
+            cfg.clone(),
+            program_x(name, parked.clone(), vec![], false, false, true),
         ));
     }
     if thorough {
